@@ -40,6 +40,7 @@ type scenario struct {
 	Pool          int      `json:"pool,omitempty"`           // > 0: the sessions run with a worker pool of that size (C05: a panic on a pool goroutine kills the process)
 	OnlyOps       []string `json:"only_ops,omitempty"`       // restrict the operator menu (quick-tier sizing of expensive scenarios)
 	Whole         bool     `json:"whole,omitempty"`          // small catalogue of an expensive protocol: ONE process builds the world and runs all its cases
+	NoChainKey    bool     `json:"no_chain_key,omitempty"`   // cmp-refresh: the configurations carry no chain key
 	CommittedOnly bool     `json:"committed_only,omitempty"` // only the commit-to-a-malformed-value-and-open-it deviations (special.go: committedValueCases)
 	StartOnly     bool     `json:"start_only,omitempty"`     // only the dealer-from-the-start deviations (special.go: startCases)
 	OnlyPaths     []string `json:"only_paths,omitempty"`     // restrict the field paths (quick-tier sizing of expensive scenarios)
@@ -167,6 +168,13 @@ func build0(sc scenario) (*world, error) {
 		if e != nil {
 			return nil, e
 		}
+		if sc.NoChainKey {
+			// the chain key of a CMP configuration is optional; the refresh is what gives such a key its chain key,
+			// and it then combines the peers' contributions - which a key that has one never does
+			for _, c := range k {
+				c.ChainKey = nil
+			}
+		}
 		w.kind, w.spec = "refresh", sess.CMPRefresh(k, ids)
 		err = pubOf(k[ids[0]])
 	case "cmp-sign":
@@ -268,6 +276,8 @@ func scenarios(check string) []scenario {
 	}
 	// CMP key generation: a second valid commitment shown to one recipient only and opened consistently; a commitment to a
 	// malformed rid / chain-key contribution opened consistently to everybody
+	// the same committed malformed values in a refresh of a key whose configurations carry no chain key
+	l = append(l, scenario{Name: "cmp-refresh/n3/t1/no-chain-key/committed-values", Proto: "cmp-refresh", N: 3, T: 1, Cost: 2, CommittedOnly: true, Whole: true, NoChainKey: true})
 	l = append(l, scenario{Name: "cmp-keygen/n3/t1/second-commitment", Proto: "cmp-keygen", N: 3, T: 1, Cost: 2, CommittedOnly: true, Whole: true})
 	if check == "C03" || check == "C04" {
 		// the openings of the last round of the offline presigning (presignature id and its decommitment, S share)
